@@ -82,4 +82,8 @@ def run(ctx, res):
                     res.violation("R12.2", fi, c, "%s calls the handler %s directly with a possibly-None argument (%s), bypassing "
                                   "the dispatcher's None test" % (fi.short, c.func.id, bad), construct="%s: None into %s" % (fi.short, c.func.id))
     res.count("direct handler calls", n)
+    # R12.4 the collinearity helper that guards the coplanar polygon / polygon routine tests every point (coverage.py)
+    from ..coverage import check_collinearity_helper
+    kc = check_collinearity_helper(ctx, res, "R12.4")
+    ctx.require(res, "R12.4", kc, 2, "return sites of points_in_a_line")
     res.undecided_ob("idempotence intersection(a, a) == a; a in b => intersection(a, b) == a; associativity")
